@@ -122,6 +122,24 @@ Theorem hfwd_isometry L m x x' : length x = (2 ^ L * m)%nat -> length x' = (2 ^ 
 Proof. intros H H'. rewrite (hfwd_adjoint L m) by (auto; apply hfwd_length; auto).
   rewrite (hinv_hfwd L m); auto. Qed.
 
+(* the same adjoint identity for the BILINEAR pairing (no conjugation, no hypothesis on c): the
+   form used by the along-axis lifting of Ops/Axis.v *)
+Lemma dotu_hstep k x a' d' : length x = (2 * k)%nat -> length a' = k -> length d' = k ->
+  dotu K (happ x) a' + dotu K (hdet x) d' = dotu K x (hunstep a' d').
+Proof. revert x a' d'; induction k as [|k IH]; intros [|x0 [|x1 t]] [|a0 a'] [|d0 d'] H Ha Hd; simpl in *; try lia.
+  - ring.
+  - rewrite <- (IH t a' d') by lia. ring. Qed.
+Theorem hfwd_adjoint_u L : forall m x y, length x = (2 ^ L * m)%nat -> length y = (2 ^ L * m)%nat ->
+  dotu K (hfwd L x) y = dotu K x (hinv L y).
+Proof. induction L as [|L IH]; intros m x y Hx Hy; auto.
+  rewrite pow2_S in *. cbn [hfwd hinv]. rewrite (half_len y _ Hy).
+  assert (Ha : length (hfwd L (happ x)) = (2 ^ L * m)%nat) by (apply hfwd_length, happ_length; auto).
+  assert (H1 : length (firstn (2 ^ L * m) y) = (2 ^ L * m)%nat) by (rewrite firstn_length; lia).
+  assert (H2 : length (skipn (2 ^ L * m) y) = (2 ^ L * m)%nat) by (rewrite skipn_length; lia).
+  rewrite <- (firstn_skipn (2 ^ L * m) y) at 1. rewrite dotu_app by lia.
+  rewrite (IH m) by (auto; apply happ_length; auto).
+  apply (dotu_hstep (2 ^ L * m)); auto. apply hinv_length; auto. Qed.
+
 (* ---- the pylops operator: Pad, transform; adjoint: inverse transform, crop ---- *)
 (* max(2 ** ceil(log(n, 2)), 2 ** level); Nat.log2_up is the exact ceil(log2 n) *)
 Definition padlen (n L : nat) : nat := Nat.max (2 ^ Nat.log2_up n) (2 ^ L).
@@ -157,6 +175,17 @@ Proof. intros Hy. unfold dwt_adj, dwt_fwd. destruct (padlen_form (length x) L) a
   pose proof (padlen_ge (length x) L) as G.
   rewrite <- (firstn_skipn (length x) (hinv L y)) at 1.
   rewrite dot_app by (rewrite firstn_length; lia). rewrite dot_zeros_l. ring. Qed.
+Theorem dwt_adjoint_u L x y : length y = padlen (length x) L ->
+  dotu K (dwt_fwd L x) y = dotu K x (dwt_adj L (length x) y).
+Proof. intros Hy. unfold dwt_adj, dwt_fwd. destruct (padlen_form (length x) L) as [m Hm].
+  rewrite (hfwd_adjoint_u L m) by (rewrite ?padded_length; lia).
+  assert (Hl : length (hinv L y) = padlen (length x) L) by (rewrite (hinv_length L m); lia).
+  pose proof (padlen_ge (length x) L) as G.
+  rewrite <- (firstn_skipn (length x) (hinv L y)) at 1.
+  rewrite dotu_app by (rewrite firstn_length; lia). rewrite dotu_zeros_l. ring. Qed.
+Lemma dwt_adj_length L n y : length y = padlen n L -> length (dwt_adj L n y) = n.
+Proof. intros Hy. destruct (padlen_form n L) as [m Hm]. unfold dwt_adj.
+  rewrite firstn_length, (hinv_length L m) by lia. pose proof (padlen_ge n L). lia. Qed.
 (* isometry of the operator *)
 Theorem dwt_isometry L x x' : length x = length x' -> dot K (dwt_fwd L x) (dwt_fwd L x') = dot K x x'.
 Proof. intros H. rewrite dwt_adjoint by (rewrite dwt_fwd_length; f_equal; auto).
